@@ -53,10 +53,13 @@ func lowerDir(src *gen.Node, dir string) *Node {
 		}
 	}
 	for _, x := range whs {
+		if x == "" {
+			continue // a file named exactly ".wh." names no target: a marker file, never shown
+		}
 		if _, real := d.Kids[x]; real {
 			continue
 		}
-		d.Kids[x] = &Node{Type: tar.TypeChar, Optional: HiddenName(dir, x) || x == ""}
+		d.Kids[x] = &Node{Type: tar.TypeChar, Optional: HiddenName(dir, x)}
 	}
 	return d
 }
